@@ -27,11 +27,14 @@ typedef struct cm_atomic_bool {
 } cm_atomic_bool;
 #define CM_AB_CONSISTENT(a) ((a).owner <= CM_OTHER && ((a).v == 0 || (a).v == 1) && (((a).owner == CM_NOBODY) ? ((a).v == 0) : ((a).v == 1)))
 
+/* ghost: set while the calling thread is the only one using the containers (phases the code documents as
+ * 'not thread safe'): no interference then */
+static bool cm_quiescent;
 #ifndef CM_NATIVE
 bool nondet_bool(void);
 size_t nondet_size_t(void);
 static inline void cm_interfere_bool(cm_atomic_bool *a) {
-  if (a->owner != CM_ME) {
+  if (a->owner != CM_ME && !cm_quiescent) {
     bool taken = nondet_bool();
     a->v = taken;
     a->owner = taken ? CM_OTHER : CM_NOBODY;
@@ -66,14 +69,15 @@ static inline bool cm_atomic_bool_load(cm_atomic_bool *a) {
  * ghost field mine accumulates the calling thread's own net contribution. */
 typedef struct cm_atomic_size_t {
   size_t v;
-  long mine; /* ghost */
+  unsigned long mine; /* ghost: net number of increments by the calling thread (modulo 2^64) */
 } cm_atomic_size_t;
 #ifndef CM_NATIVE
-static inline void cm_interfere_size_t(cm_atomic_size_t *a) { a->v = nondet_size_t(); }
+static inline void cm_interfere_size_t(cm_atomic_size_t *a) { if (!cm_quiescent) a->v = nondet_size_t(); }
 #else
 static inline void cm_interfere_size_t(cm_atomic_size_t *a) { (void)a; }
 #endif
 static inline size_t cm_atomic_size_t_load(cm_atomic_size_t *a) { cm_interfere_size_t(a); return a->v; }
+static inline void cm_atomic_size_t_store(cm_atomic_size_t *a, size_t v) { a->v = v; a->mine = 0; }
 static inline size_t cm_atomic_size_t_post_inc(cm_atomic_size_t *a) { cm_interfere_size_t(a); a->mine++; return a->v++; }
 static inline size_t cm_atomic_size_t_pre_inc(cm_atomic_size_t *a) { cm_interfere_size_t(a); a->mine++; return ++a->v; }
 static inline size_t cm_atomic_size_t_pre_dec(cm_atomic_size_t *a) { cm_interfere_size_t(a); a->mine--; return --a->v; }
